@@ -33,7 +33,7 @@ CUSTOM_POS = ("ProofOfSpace",)
 CRATES = [("chia-protocol", "", "src"), ("chia-bls", "", "src"), ("chia-consensus", "consensus", "src"),
           ("chia-datalayer", "datalayer", "src")]
 CRATE_PATH_PREFIX = {"chia_protocol": "", "chia_bls": "", "chia_consensus": "consensus", "chia_datalayer": "datalayer",
-                     "crate": None, "super": None, "self": None}
+                     "consensus": "consensus", "datalayer": "datalayer", "crate": None, "super": None, "self": None}
 
 
 class Unmodelled(Exception):
